@@ -375,12 +375,35 @@ def _advance_progress(ctx: Ctx, c: Collector, holder: str, heap: str) -> None:
         pr = []
         if gts != [rtf]:
             pr.append(f"guarded by {[T.show(x) for x in gts]} instead of world.rt_factor")
+        ELAPSED = ("op", "-", call(T.glob("time.perf_counter")), ("attr", sim, "rt_start"))
         divs = [x for x in T.subterms(e[1]) if x[0] == "op" and x[1] == "/" and x[3] == rtf]
-        if not divs:
+        # ceil as -(-a // b)
+        def _unint(y: Term) -> Term:
+            y = T.strip(y)
+            return T.strip(y[2][0]) if y[0] == "call" and y[1] == T.glob("int") and len(y[2]) == 1 else y
+        fdivs = [x for x in T.subterms(e[1]) if x[0] == "unop" and x[1] == "-" and _unint(x[2])[0] == "op" and _unint(x[2])[1] == "//" and _unint(x[2])[3] == rtf
+                 and T.strip(_unint(x[2])[2]) == ("unop", "-", ELAPSED)]
+        rounding_unknown = False
+        if fdivs:
+            pass
+        elif not divs:
             pr.append("elapsed wall-clock time is not divided by world.rt_factor")
-        elif T.strip(divs[0][2]) not in (("op", "-", call(T.glob("time.perf_counter")), ("attr", sim, "rt_start")),):
+        elif T.strip(divs[0][2]) != ELAPSED:
             pr.append(f"elapsed time is {T.show(divs[0][2])[:60]} instead of perf_counter() - sim.rt_start")
-        if pr:
+        else:
+            # the quotient is rounded *up*: a step for time t may begin once (t - 1) * rt_factor seconds have passed; rounded down,
+            # it begins a whole rt_factor late and every simulator -- however fast -- is reported as too slow
+            wraps = [x for x in T.subterms(e[1]) if x[0] == "call" and len(x[2]) >= 1 and T.strip(x[2][0]) == divs[0]]
+            names = [w[1][1].rsplit(".", 1)[-1] if w[1][0] == "glob" else (w[1][2] if w[1][0] == "attr" else "?") for w in wraps]
+            if "ceil" in names:
+                pass
+            elif any(n in ("int", "floor", "round", "trunc") for n in names) or any(x[0] == "op" and x[1] == "//" and x[3] == rtf for x in T.subterms(e[1])):
+                pr.append("the elapsed simulation time is rounded down instead of up: a step begins a whole rt_factor late, and a simulator that answers instantly is reported as too slow")
+            else:
+                rounding_unknown = True
+        if not pr and rounding_unknown:
+            c.unk("rt", ADV, "rt-term", f"rounding of the elapsed simulation time not understood in {T.show(e[1])[:100]}", loc)
+        elif pr:
             c.bad("rt", ADV, "rt-term", "; ".join(pr), loc)
         else:
             c.ok("rt", ADV, "rt-term", T.show(e[1])[:160] + " if world.rt_factor", loc)
